@@ -16,7 +16,13 @@ def build_variant(v):
 
     sch = {"none": None, "str": "s", "list": ["d", "s"], "obj": Schema("s"), "nested": Database("d").s}[v["schema"]]
     q = {"generic": P.Query, "mysql": P.MySQLQuery}[v["qcls"]]
-    t = P.Table(v["name"], schema=sch, alias=v["alias"] or None, query_cls=q)
+    if v.get("path") == "derived":
+        t = P.Table(v["name"], schema=sch, query_cls=q)
+        hash(t), str(t), {t: 1}, str(q.from_(t).select(t.star))  # the base has a history before it is derived from
+        if v["alias"]:
+            t = t.as_(v["alias"])
+    else:
+        t = P.Table(v["name"], schema=sch, alias=v["alias"] or None, query_cls=q)
     if v["temporal"] == "for":
         t = t.for_(P.SYSTEM_TIME.as_of("2020-01-01"))
     elif v["temporal"] == "portion":
@@ -25,7 +31,7 @@ def build_variant(v):
 
 
 def shape(v):
-    return f"{v['schema']}/{'alias' if v['alias'] else 'noalias'}/{v['temporal']}/{v['qcls']}"
+    return f"{v['schema']}/{'alias' if v['alias'] else 'noalias'}/{v['temporal']}/{v['qcls']}/{v.get('path', 'ctor')}"
 
 
 def safe_hash(o):
@@ -184,7 +190,7 @@ def run(tier: str) -> int:
                 rep.discrepancy([sig], {"class": kind, "law": law, "a": si, "b": sj}, what=f"{kind}: {law}")
     rep.sample({"universe": "Table name=t", "variants": meta[0][1][:5], "size": len(meta[0][1])})
     rep.sample({"tree": trees[0]["tree"], "expected_fields": trees[0]["fields"]})
-    rep.rule = ("TLC generates the cross product of table constructions (2 names x 5 schema forms x alias x 3 temporal x 2 query classes = 120) "
+    rep.rule = ("TLC generates the cross product of table constructions (2 names x 5 schema forms x alias x 3 temporal x 2 query classes x 2 construction paths = 240) "
                 f"and {len(trees)} expression trees over fields of 3 tables with overlapping column names in every operand order; the executor records "
                 "== / != / hash / set, dict, list membership matrices before and after rendering, and fields_()/tables_; TLC evaluates the laws (all pairs and "
                 "triples) and compares with FieldsOf/TablesOf")
@@ -195,7 +201,7 @@ def run(tier: str) -> int:
 def _pair_shape(a, b):
     """what differs between the two variant shapes"""
     pa, pb = a.split("/"), b.split("/")
-    names = ["schema", "alias", "temporal", "qcls"]
+    names = ["schema", "alias", "temporal", "qcls", "path"]
     diff = [f"{n}:{x}~{y}" for n, x, y in zip(names, pa, pb) if x != y]
     return ",".join(diff) or "same-construction"
 
